@@ -199,9 +199,12 @@ Pos(d, k) == IF \E i \in DOMAIN d.secs : d.secs[i].kind = k THEN CHOOSE i \in DO
 Before(d, a, b) == Pos(d, b) = 0 \/ (Pos(d, a) # 0 /\ Pos(d, a) < Pos(d, b))
 WF(d) ==
     /\ \A i, j \in DOMAIN d.secs : d.secs[i].kind = d.secs[j].kind => i = j
+    /\ Before(d, "SIMUL", "PARAM") /\ Before(d, "SIMUL", "MULTI") \* the flavour (SIMUL) selects the PARAM / MULTI record layouts
+    /\ (Pos(d, "SIMUL") # 0 => Pos(d, "SIMUL") < Pos(d, "PARAM") \/ Pos(d, "PARAM") = 0)
     /\ Before(d, "MULTI", "DIFFU")                              \* DIFFU rows are counted by MULTI's components
     /\ Pos(d, "DIFFU") # 0 => d.secs[Pos(d, "DIFFU")].n = d.secs[Pos(d, "MULTI")].ncomp
-    /\ Before(d, "ROCKS", "ELEME") /\ Before(d, "ELEME", "CONNE")
+    /\ (Pos(d, "ELEME") # 0 /\ d.secs[Pos(d, "ELEME")].n > 0) => Before(d, "ROCKS", "ELEME")     \* blocks name their rock types
+    /\ (Pos(d, "CONNE") # 0 /\ d.secs[Pos(d, "CONNE")].n > 0) => Before(d, "ELEME", "CONNE")     \* connections name their blocks
     /\ \A k \in {"SHORT", "FOFT", "COFT", "GOFT"} : Before(d, "ELEME", k) /\ Before(d, "CONNE", k)
     /\ Before(d, "GENER", "SHORT")
 
